@@ -1,4 +1,5 @@
 import Vorbis.File.Model
+import Vorbis.Proofs.Open
 namespace Vorbis.Props.C09
 open Vorbis Vorbis.File
 
@@ -67,5 +68,62 @@ theorem C09_foreign_serial_is_ignored (vf : VF) (s : Int) (h : ∀ j, j < vf.lin
   simpa using h x (List.mem_range.mp hx)
 
 example : linkOf { links := 3, serialnos := #[11, 22, 33] } 22 = some 1 ∧ linkOf { links := 3, serialnos := #[11, 22, 33] } 44 = none := by decide
+
+theorem sumLen_succ (pl : Array Int) (n : Nat) : sumLen pl (n + 1) = sumLen pl n + pl[n * 2 + 1]! := by
+  unfold sumLen
+  rw [List.range_succ, List.foldl_append]
+  rfl
+
+/-- with non-negative link lengths no link's samples are lost from the total -/
+theorem link_le_total (pl : Array Int) : ∀ n, (∀ i, i < n → 0 ≤ pl[2 * i + 1]!) →
+    0 ≤ sumLen pl n ∧ ∀ i, i < n → pl[2 * i + 1]! ≤ sumLen pl n := by
+  intro n
+  induction n with
+  | zero => intro _; exact ⟨by unfold sumLen; simp, fun i hi => by omega⟩
+  | succ k ih =>
+      intro h
+      obtain ⟨h0, hi⟩ := ih (fun i hi => h i (by omega))
+      have hk : 0 ≤ pl[k * 2 + 1]! := by have := h k (by omega); rwa [Nat.mul_comm] at this
+      rw [sumLen_succ]
+      refine ⟨by omega, fun i hik => ?_⟩
+      by_cases e : i = k
+      · subst e
+        have : pl[2 * i + 1]! = pl[i * 2 + 1]! := by rw [Nat.mul_comm]
+        omega
+      · have := hi i (by omega)
+        omega
+
+open Vorbis.Proofs.Open in
+/-- **C09_open_accounts_for_every_link** — whatever the bytes of the file are: when the open-time scan of a seekable source
+(`_open_seekable2` with `_bisect_forward_serialno`, any number of links, any nesting depth of the bisection) reports success, every
+table of the handle has exactly one entry per link (`offsets` one more), every link length is non-negative, the first link starts at
+byte 0, and the final positioning seek has not disturbed any of it. -/
+theorem C09_open_accounts_for_every_link (ph : Phys) (bos : List Int) (s : VF) (hk : s.seekable = true)
+    (h : ((open2 ph bos).run s).1 = 0) :
+    let t := ((open2 ph bos).run s).2
+    0 < t.links ∧ t.offsets.size = t.links + 1 ∧ t.dataoffsets.size = t.links ∧ t.serialnos.size = t.links ∧
+    t.pcmlengths.size = 2 * t.links ∧ t.infos.size = t.links ∧ (∀ i, i < t.links → 0 ≤ t.pcmlengths[2 * i + 1]!) ∧
+    t.offsets[0]! = 0 ∧ 0 ≤ t.offsets[t.links]! := by
+  obtain ⟨n, hn, sh, hl, h0, he⟩ := open2_post ph bos s hk h
+  intro t
+  have el : t.links = n := sh.links
+  rw [el]
+  exact ⟨hn, sh.offs, sh.doffs, sh.sers, sh.pls, sh.infos, hl, h0, he⟩
+
+open Vorbis.Proofs.Open in
+/-- **C09_every_link_counts_towards_the_total** — after a successful open the overall length (what `ov_pcm_total(vf,-1)` adds up) is at
+least the length of every single link: no link's samples cancel against another's. -/
+theorem C09_every_link_counts_towards_the_total (ph : Phys) (bos : List Int) (s : VF) (hk : s.seekable = true)
+    (h : ((open2 ph bos).run s).1 = 0) :
+    let t := ((open2 ph bos).run s).2
+    ∀ i, i < t.links → t.pcmlengths[2 * i + 1]! ≤ sumLen t.pcmlengths t.links := by
+  intro t
+  exact (link_le_total t.pcmlengths t.links (C09_open_accounts_for_every_link ph bos s hk h).2.2.2.2.2.2.1).2
+
+/-- non-vacuity: the five-page example file opens (both stages) with return code 0: one link of 288 samples after an initial offset of 32 -/
+example : ((open1 Vorbis.Props.C07.exPhys true).run {}).1.1 = 0 ∧
+    ((open2 Vorbis.Props.C07.exPhys [7]).run ((open1 Vorbis.Props.C07.exPhys true).run {}).2).1 = 0 ∧
+    ((open2 Vorbis.Props.C07.exPhys [7]).run ((open1 Vorbis.Props.C07.exPhys true).run {}).2).2.tab.pcmlengths = #[32, 288] := by
+  decide +kernel
 
 end Vorbis.Props.C09
